@@ -332,6 +332,17 @@ def r7_eviction_safe(cx):
     cx.ob("R7", "R7/cache-holds-arcs", bool(ty) and "Arc<reader::content_pack::cluster::Cluster>" in ty[0] and "Mutex<" in ty[0], "(struct ContentPack)", "cluster_cache: Mutex<LruCache<ClusterIdx, Arc<Cluster>>> (%s)" % (ty[0][:90] if ty else None))
 
 
+def r8_shared_file_cursor(cx):
+    """the file cursor behind FileSource is shared by all reader threads and by the decompression workers: a
+    seek and the read that follows must be one critical section (same MutexGuard)"""
+    import c13
+    before = len(cx.obs)
+    c13.r5_file_reads_are_positioned(cx)
+    for o in cx.obs[before:]:
+        o.rule = "R8"
+        o.key = "R8/" + o.key.split("/", 1)[1]
+
+
 def r6_witness(cx):
     """type-level: the reader views are Send + Sync (+ 'static for ByteRegion); the raw buffer types are private"""
     import witness
@@ -349,4 +360,5 @@ RULES = [
     ("R5", r5_unsafe_inventory, 4),
     ("R6", r6_witness, 1),
     ("R7", r7_eviction_safe, 4),
+    ("R8", r8_shared_file_cursor, 5),
 ]
